@@ -90,10 +90,13 @@ def gen_scenario(rng, sid):
             if pad >= 12 and rng.random() < 0.4: padbytes = (struct.pack(">BBHHBB", 1, 6, 1, 4, 0, 0) + b"EVIL" + b"\0" * (pad - 12))[:pad]
             stream += backend.fcgi_record(6, 1, pc, pad, padbytes)
             positions += [len(stream) - pad, len(stream), len(stream) - pad - len(pc), len(stream) - pad - len(pc) - 4]
+            fake = lambda n: (struct.pack(">BBHHBB", 1, 6, 1, 4, 0, 0) + b"EVIL" + b"\0" * n)[:n]      # padding that reads as a STDOUT record
             if rng.random() < 0.15:
-                stream += backend.fcgi_record(7, 1, b"some stderr text\n", rng.choice([0, 3])); positions.append(len(stream))
-            if rng.random() < 0.05:
-                stream += backend.fcgi_record(rng.choice([9, 11]), 1, b"x" * 8); positions.append(len(stream))
+                pad2 = rng.choice([0, 3, 16, 255])
+                stream += backend.fcgi_record(7, 1, b"some stderr text\n", pad2, fake(pad2) if pad2 >= 12 else None); positions.append(len(stream))
+            if rng.random() < 0.08:
+                pad2 = rng.choice([0, 5, 16, 255])
+                stream += backend.fcgi_record(rng.choice([9, 11]), 1, b"x" * 8, pad2, fake(pad2) if pad2 >= 12 else None); positions.append(len(stream))
         if brk == "garbage": stream = rng.choice([b"\x01\x06\x00\x01\xff\xff\x00\x00short", b"HTTP/1.1 200 OK\r\n\r\nnot fastcgi at all"])
         if brk != "no-end":
             stream += backend.fcgi_record(6, 1, b"") + backend.fcgi_record(3, 1, struct.pack(">IB3x", 0, 0), rng.choice([0, 8]))
